@@ -21,6 +21,8 @@ CONSTANTS MaxN,        \* bound on leaves ever added
           Acts,        \* enabled actions: subset of {"mod","undo","prove","restore","enc"}
           MaxPerm,     \* request orders: all permutations up to this size
           TrackUndone, \* TRUE: which block was undone stays part of the state for one more block (see Undo)
+          TrackEnc,    \* TRUE: the encoding (kind, unused hashes) of the last block stays part of the state, so
+                       \*       that every accepted encoding of a block is followed by its Undo (see Modify)
           MaxReuse,    \* 1: one block per behaviour may append a leaf that carries the hash of a leaf it deletes
           MinN,        \* wide configurations: every state with MinN <= n <= MaxN - MaxAdds and at most
           InitLive     \* InitLive live leaves is an initial state (InitLive >= 99: start from the empty accumulator)
@@ -111,7 +113,7 @@ InitHist(x, lv) ==
   (IF x = 0 THEN <<>> ELSE <<ModStepAt(0, {}, <<>>, x, NoEnc)>>)
     \o (IF dead = {} THEN <<>> ELSE <<ModStepAt(x, 0..(x - 1), AscSeq(dead), 0, NoEnc)>>)
 
-Init == /\ stack = <<>> /\ marks = [und |-> 0, rst |-> 0, probe |-> 0, undone |-> <<>>, trail |-> 0, lab |-> <<>>]
+Init == /\ stack = <<>> /\ marks = [und |-> 0, rst |-> 0, probe |-> 0, undone |-> <<>>, trail |-> 0, lab |-> <<>>, enc |-> <<>>]
         /\ IF InitLive >= 99
            THEN n = 0 /\ live = {} /\ hist = <<>>
            ELSE /\ n \in MinN..(MaxN - MaxAdds)     \* room for one full block
@@ -151,7 +153,8 @@ Modify ==
             IN  /\ n' = n2
                 /\ live' = lv2
                 /\ stack' = Push([n |-> n, live |-> live])
-                /\ marks' = [m2 EXCEPT !.lab = lab2]
+                /\ marks' = [m2 EXCEPT !.lab = lab2,
+                                       !.enc = IF TrackEnc /\ D # {} THEN <<e[2].kind, e[2].junk>> ELSE <<>>]
                 /\ hist' = Append(hist, step)
                 /\ Emit(step, Obs(n2, lv2))
 
@@ -173,7 +176,8 @@ Undo ==
          /\ marks' = [marks EXCEPT !.und = @ + 1,
                                    !.undone = IF TrackUndone THEN <<prev.live \ live, n - prev.n>> ELSE <<>>,
                                    !.trail = 0,
-                                   !.lab = lab2]
+                                   !.lab = lab2,
+                                   !.enc = <<>>]
          /\ hist' = Append(hist, step)
          /\ Emit(step, Obs(prev.n, prev.live))
 
@@ -189,7 +193,7 @@ Prove ==
        \E ord \in Orders(S) :
           LET step == [a |-> "prove", s |-> ord, pf |-> JProof(CanonProof(n, live, ord)), lab |-> marks.lab]
           IN  /\ IF marks.probe < MaxProbe
-                 THEN /\ marks' = [marks EXCEPT !.probe = @ + 1]
+                 THEN /\ marks' = [marks EXCEPT !.probe = @ + 1, !.enc = <<>>]
                       /\ hist' = Append(hist, step)
                       /\ UNCHANGED <<n, live, stack>>
                  ELSE UNCHANGED vars
@@ -203,7 +207,7 @@ Restore ==
   /\ marks.rst < MaxRst
   /\ LET step == [a |-> "restore", lab |-> marks.lab]
      IN  /\ UNCHANGED <<n, live, stack>>
-         /\ marks' = [marks EXCEPT !.rst = @ + 1]
+         /\ marks' = [marks EXCEPT !.rst = @ + 1, !.enc = <<>>]
          /\ hist' = Append(hist, step)
          /\ Emit(step, Obs(n, live))
 
